@@ -293,4 +293,7 @@ M("memorylogger-lists-not-reset", ["C16"], "_output.py", "        self.messages 
   "        self.messages = []\n        self.serializers = self.messages\n        self.tracebackMessages = []\n        self._failed_validations = []", "C16")
 M("registry-shared-default", ["C03"], "_errors.py", "    def __init__(self):\n        self.registry = {}", "    def __init__(self, registry={}):\n        self.registry = registry", "C03.state")
 
+M("current-action-lru-cache", ["C05", "C04"], "_action.py", "def current_action():", "from functools import lru_cache\n\n\n@lru_cache(maxsize=None)\ndef current_action():", ".state")
+M("tostring-cached", ["C06"], "_action.py", "    def toString(self):", "    @__import__('functools').lru_cache(maxsize=None)\n    def toString(self):", ".state")
+
 VARIANTS = V
